@@ -1,6 +1,7 @@
 package main
 
 import (
+	"regexp"
 	"bytes"
 	"fmt"
 	"sort"
@@ -273,5 +274,37 @@ func runC03(c *Ctx) {
 		}
 		c.Count(fmt.Sprintf("tx:%d", minInt(len(txs), 5)))
 		c.Eval(k >= 2, fmt.Sprint(P, F, last, toks))
+	})
+	// R. the server's reply path when proxying (conn.process: the reply of the connection's own
+	// Session merged with the batches resolved by tags): a proxy P polls with a multi-device batch that
+	// carries the tag of C, for which packets are queued. The history runs on a real Server/Listener
+	// (hooks and model of C15, op `srv`); every packet queued for C must be handed out exactly once.
+	c.Cases("relay", c.N(250, 4000), func(r *Rng, i int) {
+		ids := []device.ID{c15RandID(r), c15RandID(r), c15RandID(r), c15RandID(r)}
+		steps, queued := c15RelaySteps(r, ids)
+		hexids := make([]string, len(ids))
+		for k := range ids {
+			hexids[k] = hx(ids[k][:])
+		}
+		toks := make([]string, len(steps))
+		for k := range steps {
+			toks[k] = steps[k].tok(ids)
+		}
+		op := "srv " + strings.Join(hexids, ",") + " " + strings.Join(toks, " ")
+		ans := c15RunServer(c, ids, steps, op)
+		c.Op(op, ans)
+		replies := ans
+		if k := strings.LastIndex(ans, " | tbl="); k >= 0 {
+			replies = ans[:k]
+		}
+		for _, q := range queued {
+			re := regexp.MustCompile(fmt.Sprintf(`(^|[:,])1\.%d\.%d([,: ]|$)`, q.pid, q.job))
+			if n := len(re.FindAllString(replies, -1)); n != 1 {
+				c.Fail("relay", fmt.Sprintf("relay:queued-packet-handed-out-%d-times", n),
+					fmt.Sprintf("packet %d/%d queued for the proxied device was handed out %d times by the server's replies", q.pid, q.job, n),
+					map[string]interface{}{"op": op, "answers": ans})
+			}
+		}
+		c.Eval(true, op)
 	})
 }
